@@ -148,6 +148,9 @@ func (g *RNG) Read(p []byte) (int, error) {
 	lane := 0
 	if g.laneOf != nil {
 		lane = g.laneOf()
+		if lane < 0 || lane >= MaxLanes {
+			lane = MaxLanes - 1 // a caller outside any task (or after the scheduler let go): never index out of range
+		}
 	}
 	if len(p) == 4 && len(g.script4) > 0 {
 		copy(p, g.script4[0][:])
